@@ -149,7 +149,7 @@ PROPS = {
     },
     "C01": {
         "proofs": ["ZlProofs.Props.C01"],
-        "corr": ["framework"],
+        "corr": ["framework", "walkers"],  # walkers: the string helpers that loop on their input run under a watchdog (no hang)
         "search": [("sweep", "C01")],
         "trusted_base": TB_COMMON,
         "assumptions": ["no-hang is enforced only as a harness timeout",
@@ -218,7 +218,7 @@ PROPS = {
     },
     "C07": {
         "proofs": ["ZlProofs.Props.C07", "ZlProofs.Props.C05"],  # rests on C05's footprint facts (no lint writes the object or package-level state)
-        "corr": [],
+        "corr": ["filter"],  # filter_shares_lints: the filtered registry holds the same lint values and the same configuration
         "search": ["c07"],
         "trusted_base": TB_COMMON,
         "assumptions": ["rests on C05's footprint facts: no lint writes the object or package-level state"],
